@@ -21,12 +21,22 @@ package wallet
 // Oracle: the body layouts of the wallet contracts (see c14_helper_test.go), parsed by hand from the cell's bits and
 // refs; an independent representation hash; crypto/ed25519 over that hash. The library's own decoders
 // (VerifySignature, SignedMsgBody.Verify, MessageV5VerifySignature, Decode*, ExtractRawMessages) are then compared
-// against the request as well.
+// against the request as well: they must return the requested messages and modes in the requested order.
+//
+// What fails a test is a violation of the property as stated; observations that are stricter than it are logged as
+// "INFO c14 <name>: N cases, first: ..." and never fail:
+//   v5_outlist_order_reversed      the hand parser accepts the requested actions in either nesting order of the v5 out
+//                                  list (the property is about what decoding returns) and logs which one was seen
+//   body_builder_accepts_overlimit only a *send* (RawSendV2) with more than the allowed messages must be refused
+//   comment_snake_not_byte_aligned long comments are split at a bit boundary, not a byte boundary
+// Every failure lands in a sub-test rc_<cause>; the causes listed in the test are always run, anything else (a panic in a
+// specific entry point, a send-path variant of a body check, ...) gets its own rc_ name.
 
 import (
 	"context"
 	"crypto/ed25519"
 	"crypto/sha256"
+	"errors"
 	"fmt"
 	"strings"
 	"testing"
@@ -150,12 +160,15 @@ func (e *c14PoolEntry) describe() string {
 func TestVerifStandin_C14_TransferEncoding(t *testing.T) {
 	h := newC14Hasher()
 	stat := newC14Stat("c14_transfer_encoding")
-	fails := newC14Failures("rc_transfer_encoding", "rc_transfer_panic")
+	defer stat.print()
+	fails := newC14Failures("rc_transfer_encoding", "rc_transfer_panic", "rc_pool_build")
+	info := newC14Info("c14", "comment_snake_not_byte_aligned")
 	pool, err := c14BuildPool(h)
 	if err != nil {
-		t.Fatalf("%v", err)
+		fails.add("rc_pool_build", "cannot build the transfer pool (ToInternal / tlb.Marshal): %v", err)
+		fails.report(t)
+		return
 	}
-	unaligned := 0
 	for _, e := range pool {
 		stat.add(fmt.Sprint(e.idx))
 		bad := func(format string, args ...any) {
@@ -221,7 +234,8 @@ func TestVerifStandin_C14_TransferEncoding(t *testing.T) {
 			}
 			for _, n := range chunks[:len(chunks)-1] {
 				if n%8 != 0 {
-					unaligned++
+					info.add("comment_snake_not_byte_aligned", "%s: snake chunks of %v bits (tlb.SnakeData fills 1023 bits per cell; readers that load whole "+
+						"bytes per cell, e.g. @ton/core readString, refuse such chains)", e.describe(), chunks)
 					break
 				}
 			}
@@ -235,12 +249,8 @@ func TestVerifStandin_C14_TransferEncoding(t *testing.T) {
 			}
 		}
 	}
-	if unaligned > 0 {
-		t.Logf("note: %d comment(s) are split across snake cells at a non-byte boundary (tlb.SnakeData fills 1023 bits per cell); "+
-			"readers that load whole bytes per cell (e.g. @ton/core readString) refuse such chains", unaligned)
-	}
+	info.report(t)
 	fails.report(t)
-	stat.print()
 }
 
 // c14Wrap puts a body into an external inbound message for addr, the way RawSendV2 does.
@@ -392,62 +402,99 @@ func c14LibDecode(ver Version, ext *boc.Cell) (*c14Decoded, error) {
 }
 
 // c14CheckBody compares a body (parsed by the spec) with the request; returns (cause, message) or ("", "").
+// For v5 the requested actions are accepted in either nesting order of the out list (the property is about what the
+// library's decoders return); order is "first-innermost" (block.tlb list order = execution order), "first-outermost"
+// (the reverse) or "" when the two cannot be told apart.
 func c14CheckBody(h *c14Hasher, ver Version, body *boc.Cell, pub, wrongPub ed25519.PublicKey, wantID string, wantValid, wantSeqno uint32,
-	wantHashes [][32]byte, wantModes []byte) (string, string, *c14Body) {
-	var pb *c14Body
+	wantHashes [][32]byte, wantModes []byte) (cause string, msg string, pb *c14Body, order string) {
 	var perr error
 	if p := c14Safe(func() { pb, perr = c14ParseBody(h, ver, body) }); p != "" {
-		return "rc_spec_layout", "oracle panic: " + p, nil
+		return "rc_oracle_panic", "oracle panic: " + p, nil, ""
 	}
 	fam := c14Family(ver)
 	if perr != nil {
-		if fam == "hl2" && len(wantHashes) == 0 {
-			return "rc_highload_zero_messages_malformed_dict", perr.Error() + " - an empty HashmapE is the single bit 0 without a reference", nil
+		if fam == "hl2" && len(wantHashes) == 0 && errors.Is(perr, errC14EmptyDictRoot) {
+			return "rc_highload_zero_messages_malformed_dict", perr.Error(), nil, ""
 		}
-		return "rc_spec_layout", perr.Error(), nil
+		return "rc_spec_layout", perr.Error(), nil, ""
 	}
 	if pb.walletID != wantID {
-		return "rc_spec_fields", fmt.Sprintf("wallet id bits %s, want %s", pb.walletID, wantID), pb
+		return "rc_spec_fields", fmt.Sprintf("wallet id bits %s, want %s", pb.walletID, wantID), pb, ""
 	}
 	if pb.validUntil != wantValid {
-		return "rc_spec_fields", fmt.Sprintf("valid_until %d, want %d", pb.validUntil, wantValid), pb
+		return "rc_spec_fields", fmt.Sprintf("valid_until %d, want %d", pb.validUntil, wantValid), pb, ""
 	}
 	if fam != "hl2" && pb.seqno != wantSeqno {
-		return "rc_spec_fields", fmt.Sprintf("seqno %d, want %d", pb.seqno, wantSeqno), pb
+		return "rc_spec_fields", fmt.Sprintf("seqno %d, want %d", pb.seqno, wantSeqno), pb, ""
 	}
 	if fam == "v4" && pb.op != 0 {
-		return "rc_spec_fields", fmt.Sprintf("v4 op %d, want 0 (simple send)", pb.op), pb
+		return "rc_spec_fields", fmt.Sprintf("v4 op %d, want 0 (simple send)", pb.op), pb, ""
 	}
 	if !pb.verify(pub) {
-		return "rc_signature_spec", fmt.Sprintf("ed25519 does not verify the signature %x over the signed part's hash %x with the wallet's key", pb.sig, pb.signedHash), pb
+		return "rc_signature_spec", fmt.Sprintf("ed25519 does not verify the signature %x over the signed part's hash %x with the wallet's key", pb.sig, pb.signedHash), pb, ""
 	}
 	if pb.verify(wrongPub) {
-		return "rc_signature_spec", "ed25519 verifies the signature with a foreign key", pb
+		return "rc_signature_spec", "ed25519 verifies the signature with a foreign key", pb, ""
 	}
-	if d := c14SameCells(h, pb.msgs, pb.modes, wantHashes, wantModes); d != "" {
-		if fam == "v5r1" || fam == "v5beta" {
-			if c14SameCells(h, pb.outerFirstMsgs, pb.outerFirstModes, wantHashes, wantModes) == "" {
-				return "rc_v5_outlist_order_reversed", fmt.Sprintf("the out list holds the %d requested actions in reverse: request[0] sits in the "+
-					"outermost node (executed last), request[%d] in the innermost (executed first); in list order: %s", len(wantModes), len(wantModes)-1, d), pb
-			}
+	d := c14SameCells(h, pb.msgs, pb.modes, wantHashes, wantModes)
+	if fam == "v5r1" || fam == "v5beta" {
+		dOuter := c14SameCells(h, pb.outerFirstMsgs, pb.outerFirstModes, wantHashes, wantModes)
+		switch {
+		case d == "" && dOuter == "":
+			return "", "", pb, ""
+		case d == "":
+			return "", "", pb, "first-innermost"
+		case dOuter == "":
+			return "", "", pb, "first-outermost"
 		}
-		return "rc_spec_fields", "messages in execution order: " + d, pb
+		return "rc_spec_fields", "messages (in neither nesting order of the out list); innermost first: " + d + "; outermost first: " + dOuter, pb, ""
 	}
-	return "", "", pb
+	if d != "" {
+		return "rc_spec_fields", "messages: " + d, pb, ""
+	}
+	return "", "", pb, ""
 }
 
 func TestVerifStandin_C14_WalletMessages(t *testing.T) {
 	thorough := c14Thorough()
 	h := newC14Hasher()
 	stat := newC14Stat("c14_wallet_messages")
+	defer stat.print()
+	// Always-run root causes. Any other failure gets its own name (rc_panic_<where>, rc_send_<what>, ...), see below.
 	fails := newC14Failures(
-		"rc_body_builder_error", "rc_body_builder_accepts_overlimit", "rc_spec_layout", "rc_spec_fields",
-		"rc_v5_outlist_order_reversed", "rc_signature_spec", "rc_verify_right_key_rejected", "rc_verify_wrong_key_accepted",
-		"rc_verify_signature_v5beta_unsupported", "rc_bitflip_accepted", "rc_bitflip_panic", "rc_decode_mismatch", "rc_panic",
-		"rc_send_overlimit_not_refused", "rc_send_path", "rc_max_message_number", "rc_highload_zero_messages_malformed_dict")
+		"rc_body_builder_error", "rc_spec_layout", "rc_spec_fields", "rc_signature_spec", "rc_oracle_panic",
+		"rc_verify_right_key_rejected", "rc_verify_wrong_key_accepted",
+		"rc_verify_signature_v5beta_unsupported", "rc_bitflip_accepted", "rc_bitflip_panic", "rc_decode_mismatch",
+		"rc_panic_new", "rc_panic_create_message_body", "rc_panic_verify", "rc_panic_decode", "rc_panic_extract_raw_messages", "rc_panic_raw_send",
+		"rc_wrap_external_message", "rc_pool_build",
+		"rc_send_overlimit_not_refused", "rc_send_error", "rc_send_payload_format", "rc_send_destination", "rc_send_state_init",
+		"rc_send_spec_layout", "rc_send_spec_fields", "rc_send_signature_spec",
+		"rc_max_message_number", "rc_highload_zero_messages_malformed_dict")
+	// Informational only (stricter than, or outside, the property as stated): never fail.
+	info := newC14Info("c14", "v5_outlist_order_reversed", "v5_outlist_order_as_executed", "body_builder_accepts_overlimit")
+	noteOrder := func(order, where string, n int, what string, c *boc.Cell) {
+		switch order {
+		case "first-outermost":
+			if info.wants("v5_outlist_order_reversed") {
+				info.add("v5_outlist_order_reversed", "%s n=%d (%s): the out list holds the requested actions in reverse nesting: request[0] sits in the outermost "+
+					"node (the action phase executes it last), request[%d] in the innermost (executed first); the library's decoders return the requested order (%s)",
+					where, n, what, n-1, c14Hex(c))
+			} else {
+				info.add("v5_outlist_order_reversed", "")
+			}
+		case "first-innermost":
+			if info.wants("v5_outlist_order_as_executed") {
+				info.add("v5_outlist_order_as_executed", "%s n=%d (%s): request[0] sits in the innermost node (executed first)", where, n, what)
+			} else {
+				info.add("v5_outlist_order_as_executed", "")
+			}
+		}
+	}
 	pool, err := c14BuildPool(h)
 	if err != nil {
-		t.Fatalf("%v", err)
+		fails.add("rc_pool_build", "cannot build the transfer pool (ToInternal / tlb.Marshal): %v", err)
+		fails.report(t)
+		return
 	}
 	rng := c14Rng(1400)
 	nKeys := 4
@@ -498,7 +545,7 @@ func TestVerifStandin_C14_WalletMessages(t *testing.T) {
 						var werr error
 						mock, sent := NewMockBlockchain(0, tlb.ShardAccount{})
 						if p := c14Safe(func() { w, werr = New(key.priv, ver, mock, opts.options()...) }); p != "" || werr != nil {
-							fails.add("rc_panic", "New(%v, %s): panic=%q err=%v", ver, opts, p, werr)
+							fails.add("rc_panic_new", "New(%v, %s): panic=%q err=%v", ver, opts, p, werr)
 							continue
 						}
 						libMax := w.intWallet.maxMessageNumber()
@@ -536,22 +583,25 @@ func TestVerifStandin_C14_WalletMessages(t *testing.T) {
 						var body *boc.Cell
 						var berr error
 						if p := c14Safe(func() { body, berr = w.CreateMessageBody(cfg, sendables...) }); p != "" {
-							fails.add("rc_panic", "%s: CreateMessageBody with %d messages panics: %s", where, n, p)
+							fails.add("rc_panic_create_message_body", "%s: CreateMessageBody with %d messages panics: %s", where, n, p)
 						} else if n > contractMax[fam] {
+							// only a *send* with too many messages must be refused (RawSendV2, below); the body builder is informational
 							if berr == nil {
-								fails.add("rc_body_builder_accepts_overlimit", "%s: CreateMessageBody signs a body with %d messages (the %s contract executes at most %d)",
-									where, n, fam, contractMax[fam])
+								info.add("body_builder_accepts_overlimit", "%s: CreateMessageBody signs a body with %d messages (the %s contract executes at most %d); RawSendV2 refuses more than %d",
+									where, n, fam, contractMax[fam], libMax)
 							}
 						} else if berr != nil || body == nil {
 							fails.add("rc_body_builder_error", "%s: CreateMessageBody with %d messages: %v", where, n, berr)
 						} else {
-							cause, msg, _ := c14CheckBody(h, ver, body, key.pub, wrong.pub, wantID, validUntil, seqno, hashes, sModes)
+							cause, msg, _, order := c14CheckBody(h, ver, body, key.pub, wrong.pub, wantID, validUntil, seqno, hashes, sModes)
 							if cause != "" {
 								fails.add(cause, "%s n=%d: %s (body %s)", where, n, msg, c14Hex(body))
 							}
+							emptyDictRoot := cause == "rc_highload_zero_messages_malformed_dict"
+							noteOrder(order, where, n, "CreateMessageBody", body)
 							ext, err := c14Wrap(w.GetAddress(), body)
 							if err != nil {
-								fails.add("rc_panic", "%s n=%d: cannot wrap the body: %v", where, n, err)
+								fails.add("rc_wrap_external_message", "%s n=%d: cannot wrap the body: %v", where, n, err)
 								continue
 							}
 							// right key / wrong key through the library
@@ -559,22 +609,26 @@ func TestVerifStandin_C14_WalletMessages(t *testing.T) {
 							if fam == "v5beta" {
 								ext.ResetCounters()
 								var e error
-								if p := c14Safe(func() { e = VerifySignature(ver, ext, key.pub) }); p != "" || e != nil {
+								if p := c14Safe(func() { e = VerifySignature(ver, ext, key.pub) }); p != "" {
+									skipVS = true
+									fails.add("rc_panic_verify", "%s n=%d: VerifySignature(V5Beta) panics: %s (message %s)", where, n, p, c14Hex(ext))
+								} else if e != nil && strings.Contains(e.Error(), "not supported") {
 									skipVS = true
 									if fails.wants("rc_verify_signature_v5beta_unsupported") {
-										fails.add("rc_verify_signature_v5beta_unsupported", "%s n=%d: VerifySignature(V5Beta, msg, wallet key): panic=%q err=%v (message %s)", where, n, p, e, c14Hex(ext))
+										fails.add("rc_verify_signature_v5beta_unsupported", "%s n=%d: VerifySignature(V5Beta, msg, wallet key): err=%v (message %s)", where, n, e, c14Hex(ext))
 									} else {
 										fails.add("rc_verify_signature_v5beta_unsupported", "")
 									}
 								}
+								// any other error is reported by c14LibVerify below as rc_verify_right_key_rejected
 							}
 							if e, p := c14LibVerify(ver, ext, body, key.pub, skipVS); p != "" {
-								fails.add("rc_panic", "%s n=%d: verification panics: %s (message %s)", where, n, p, c14Hex(ext))
+								fails.add("rc_panic_verify", "%s n=%d: verification panics: %s (message %s)", where, n, p, c14Hex(ext))
 							} else if e != nil {
 								fails.add("rc_verify_right_key_rejected", "%s n=%d: %v (message %s)", where, n, e, c14Hex(ext))
 							}
 							if acc, p := c14LibRejects(ver, ext, body, wrong.pub, skipVS, 0); p != "" {
-								fails.add("rc_panic", "%s n=%d: verification with a foreign key panics: %s (message %s)", where, n, p, c14Hex(ext))
+								fails.add("rc_panic_verify", "%s n=%d: verification with a foreign key panics: %s (message %s)", where, n, p, c14Hex(ext))
 							} else if acc != "" {
 								fails.add("rc_verify_wrong_key_accepted", "%s n=%d: %s accepts the foreign key %x (message %s)", where, n, acc, []byte(wrong.pub), c14Hex(ext))
 							}
@@ -582,8 +636,8 @@ func TestVerifStandin_C14_WalletMessages(t *testing.T) {
 							var d *c14Decoded
 							var derr error
 							if p := c14Safe(func() { d, derr = c14LibDecode(ver, ext) }); p != "" {
-								fails.add("rc_panic", "%s n=%d: decoder panics: %s (message %s)", where, n, p, c14Hex(ext))
-							} else if derr != nil && fam == "hl2" && n == 0 {
+								fails.add("rc_panic_decode", "%s n=%d: decoder panics: %s (message %s)", where, n, p, c14Hex(ext))
+							} else if derr != nil && emptyDictRoot {
 								fails.add("rc_highload_zero_messages_malformed_dict", "%s n=%d: the library's own DecodeHighloadV2Message fails on it: %v (message %s)", where, n, derr, c14Hex(ext))
 							} else if derr != nil {
 								fails.add("rc_decode_mismatch", "%s n=%d: decoder fails: %v (message %s)", where, n, derr, c14Hex(ext))
@@ -607,8 +661,8 @@ func TestVerifStandin_C14_WalletMessages(t *testing.T) {
 							var rerr error
 							ext.ResetCounters()
 							if p := c14Safe(func() { raws, rerr = ExtractRawMessages(ver, ext) }); p != "" {
-								fails.add("rc_panic", "%s n=%d: ExtractRawMessages panics: %s (message %s)", where, n, p, c14Hex(ext))
-							} else if rerr != nil && fam == "hl2" && n == 0 {
+								fails.add("rc_panic_extract_raw_messages", "%s n=%d: ExtractRawMessages panics: %s (message %s)", where, n, p, c14Hex(ext))
+							} else if rerr != nil && emptyDictRoot {
 								fails.add("rc_highload_zero_messages_malformed_dict", "%s n=%d: the library's own ExtractRawMessages fails on it: %v (message %s)", where, n, rerr, c14Hex(ext))
 							} else if rerr != nil {
 								fails.add("rc_decode_mismatch", "%s n=%d: ExtractRawMessages: %v (message %s)", where, n, rerr, c14Hex(ext))
@@ -626,7 +680,7 @@ func TestVerifStandin_C14_WalletMessages(t *testing.T) {
 								}
 								fext, err := c14Wrap(w.GetAddress(), fb)
 								if err != nil {
-									fails.add("rc_panic", "%s n=%d %s: cannot wrap: %v", where, n, what, err)
+									fails.add("rc_wrap_external_message", "%s n=%d %s: cannot wrap: %v", where, n, what, err)
 									return
 								}
 								if acc, p := c14LibRejects(ver, fext, fb, key.pub, skipVS, flipOnly); p != "" {
@@ -644,6 +698,8 @@ func TestVerifStandin_C14_WalletMessages(t *testing.T) {
 							step := flipStep
 							if n > 4 {
 								step *= 8 // the root cell of a v5 / highload body has the same layout for every count
+							} else if n == 2 && !thorough {
+								step *= 2
 							}
 							for i := caseIdx % step; i < len(bits); i += step {
 								tryFlip(fmt.Sprintf("bit %d of the body flipped", i), c14Cell(c14Flip(bits, i), refs...))
@@ -667,7 +723,7 @@ func TestVerifStandin_C14_WalletMessages(t *testing.T) {
 						}
 						var serr error
 						if p := c14Safe(func() { _, serr = w.RawSendV2(ctx, seqno, time.Unix(int64(validUntil), 0), raws, init, 0) }); p != "" {
-							fails.add("rc_panic", "%s: RawSendV2 with %d messages panics: %s", where, ns, p)
+							fails.add("rc_panic_raw_send", "%s: RawSendV2 with %d messages panics: %s", where, ns, p)
 							continue
 						}
 						var payload []byte
@@ -682,38 +738,39 @@ func TestVerifStandin_C14_WalletMessages(t *testing.T) {
 							continue
 						}
 						if serr != nil || payload == nil {
-							fails.add("rc_send_path", "%s: RawSendV2 with %d messages: err=%v, message sent=%v", where, ns, serr, payload != nil)
+							fails.add("rc_send_error", "%s: RawSendV2 with %d messages: err=%v, message sent=%v", where, ns, serr, payload != nil)
 							continue
 						}
 						roots, err := boc.DeserializeBoc(payload)
 						if err != nil || len(roots) != 1 {
-							fails.add("rc_send_path", "%s n=%d: payload is not a single-root BOC: %v (payload %x)", where, ns, err, payload)
+							fails.add("rc_send_payload_format", "%s n=%d: payload is not a single-root BOC: %v (payload %x)", where, ns, err, payload)
 							continue
 						}
 						var em *c14Ext
 						var eerr error
 						if p := c14Safe(func() { em, eerr = c14ParseExt(roots[0]) }); p != "" || eerr != nil {
-							fails.add("rc_send_path", "%s n=%d: payload is not an external inbound message: %v %s (payload %x)", where, ns, eerr, p, payload)
+							fails.add("rc_send_payload_format", "%s n=%d: payload is not an external inbound message: %v %s (payload %x)", where, ns, eerr, p, payload)
 							continue
 						}
 						addr := w.GetAddress()
 						if int32(em.wc) != addr.Workchain || em.addr != [32]byte(addr.Address) || em.importFee != 0 {
-							fails.add("rc_send_path", "%s n=%d: message addressed to %d:%x fee %d, wallet is %s", where, ns, em.wc, em.addr, em.importFee, addr.ToRaw())
+							fails.add("rc_send_destination", "%s n=%d: message addressed to %d:%x fee %d, wallet is %s", where, ns, em.wc, em.addr, em.importFee, addr.ToRaw())
 						}
 						if (em.init != nil) != (init != nil) {
-							fails.add("rc_send_path", "%s n=%d: state-init attached=%v, passed=%v", where, ns, em.init != nil, init != nil)
+							fails.add("rc_send_state_init", "%s n=%d: state-init attached=%v, passed=%v", where, ns, em.init != nil, init != nil)
 						} else if em.init != nil {
 							if ih, err := h.hash(em.init); err != nil || ih != [32]byte(addr.Address) {
-								fails.add("rc_send_path", "%s n=%d: attached state-init hashes to %x (%v), the wallet address is %s", where, ns, ih, err, addr.ToRaw())
+								fails.add("rc_send_state_init", "%s n=%d: attached state-init hashes to %x (%v), the wallet address is %s", where, ns, ih, err, addr.ToRaw())
 							}
 						}
-						cause, msg, _ := c14CheckBody(h, ver, em.body, key.pub, wrong.pub, wantID, validUntil, seqno, hashes, rModes)
+						cause, msg, _, order := c14CheckBody(h, ver, em.body, key.pub, wrong.pub, wantID, validUntil, seqno, hashes, rModes)
 						if cause != "" {
-							if cause != "rc_v5_outlist_order_reversed" && cause != "rc_highload_zero_messages_malformed_dict" {
-								cause = "rc_send_path"
+							if cause != "rc_highload_zero_messages_malformed_dict" {
+								cause = "rc_send_" + strings.TrimPrefix(cause, "rc_") // rc_send_spec_layout, rc_send_spec_fields, rc_send_signature_spec, ...
 							}
 							fails.add(cause, "%s n=%d (send path): %s (payload %s)", where, ns, msg, c14HexBytes(c14Trunc(payload)))
 						}
+						noteOrder(order, where, ns, "RawSendV2", em.body)
 						roots[0].ResetCounters()
 						if !(fam == "v5beta") {
 							var e error
@@ -727,8 +784,8 @@ func TestVerifStandin_C14_WalletMessages(t *testing.T) {
 		}
 	}
 	t.Logf("bit flips tried: %d", flips)
+	info.report(t)
 	fails.report(t)
-	stat.print()
 }
 
 func c14Trunc(b []byte) []byte {
